@@ -786,12 +786,17 @@ void AsyncSim::op_pushconf(const run::Op &op) {
 	if (plan.c("adv", 0) == 0 && !ha) return;
 	ConfVals cv;
 	// field value classes: 0 absent, 1..3 in range, 4 far too large, 5 far too small (where that exists)
-	auto pick = [](int64_t cls, uint64_t lo, uint64_t hi, uint64_t far_hi, uint64_t far_lo, uint64_t var) -> uint64_t {
+	// (dlo..dhi: the documented range; class 3 sits on or right next to its bounds half of the time)
+	auto pick = [](int64_t cls, uint64_t lo, uint64_t hi, uint64_t far_hi, uint64_t far_lo, uint64_t var, uint64_t dlo = 0, uint64_t dhi = 0) -> uint64_t {
 		switch (cls % 6) {
 			case 0: return 0;
 			case 1: return lo + var % (hi - lo + 1);
 			case 2: return lo + (var / 7) % (hi - lo + 1);
-			case 3: return lo + (var / 3) % (hi - lo + 1);
+			case 3: {
+				if (dhi == 0 || (var >> 5) % 2 == 0) return lo + (var / 3) % (hi - lo + 1);
+				const uint64_t edge[] = {dlo, dhi, dlo + 1, dhi - 1, dlo > 0 ? dlo - 1 : dhi + 1, dhi + 1};
+				return edge[(var >> 6) % 6];
+			}
 			// far too large: beyond the range, or an in-range value plus 2^32 / 2^63 (what a 32-bit or signed reading would take for in range)
 			case 4: return (var >> 3) % 3 == 0 ? far_hi + var % 1000 : ((var >> 3) % 3 == 1 ? (1ULL << 32) : (1ULL << 63)) + lo + var % (hi - lo + 1);
 			default: return far_lo;
@@ -799,11 +804,11 @@ void AsyncSim::op_pushconf(const run::Op &op) {
 	};
 	uint64_t var = (uint64_t)op.arg(5);
 	if (!svc_ext) {
-		cv.max_level = pick(op.arg(1), 2, 19, 100, 0, var);
-		cv.aggr_period = pick(op.arg(2), 300, 10000, 100000, 10, var);
-		cv.max_requests = pick(op.arg(3), 2, 8000, 100000, 0, var);
+		cv.max_level = pick(op.arg(1), 2, 19, 100, 0, var, 1, 20);
+		cv.aggr_period = pick(op.arg(2), 300, 10000, 100000, 10, var, 100, 20000);
+		cv.max_requests = pick(op.arg(3), 2, 8000, 100000, 0, var, 1, 16000);
 	} else {
-		cv.max_requests = pick(op.arg(1), 2, 8000, 100000, 0, var);
+		cv.max_requests = pick(op.arg(1), 2, 8000, 100000, 0, var, 1, 16000);
 		cv.cal_first = pick(op.arg(2), 1200000000, 1400000000, 1400000001 + var % 1000, 500000000 + var % 1000, var);
 		cv.cal_last = pick(op.arg(3), 1450000000, 1600000000, 1600000001 + var % 1000, 400000000 + var % 1000, var);
 		if (op.arg(2) % 6 == 4) cv.cal_first = 1300000000 + var % 1000; // "far too large" has no meaning for times; keep valid
